@@ -50,6 +50,13 @@ def _specials():
         ("lor2", v("x1"), ("quot", ("c", 1), v("x1"))),
         ("sum2", UNB, v("x1")), ("prod2", v("x1"), UNB), ("call1", v("f1", "fn"), UNB),
         ("sub1", v("a1", "arr"), UNB), ("callkw0", v("f1", "fn"), UNB),
+        # the missing name is the function / aggregate / record itself
+        ("call1", UNB, v("x1")), ("call0", UNB), ("call2", UNB, v("x1"), v("x2")), ("callkw", UNB, v("x1"), v("x2"), v("x3")),
+        ("callkw0", UNB, v("x1")), ("sub1", UNB, v("x1")), ("sub2", UNB, v("x1"), v("x2")), ("lookup", UNB),
+        ("sum2", v("x1"), ("call1", UNB, v("x1"))),
+        # one-element tuple index: a[(i,)] is not a[i]
+        ("sub1t", v("a1", "arr"), v("x1")), ("sum2", ("sub1t", v("a1", "arr"), v("x1")), ("sub1", v("a1", "arr"), v("x1"))),
+        ("sub1t", v("a1", "arr"), ("sum2", v("x1"), v("x2"))),
         ("sum2", v("x1"), v("x1")), ("prod3", v("x1"), v("x2"), v("x1")),
         ("sum2", ("c", -1), ("prod2", ("c", -2), v("x1"))),
         ("sum2", ("prod2", ("c", -1), v("x1")), ("prod2", ("c", -2), v("x2"))),
